@@ -172,14 +172,16 @@ PROPS = {
         "Explicit-state BFS of the real Subject to a fixpoint (closed state space: histories of any length over the alphabet are "
         "covered) for limits 0,1,2 with 2 endpoints x 2 tokens x 2 paths (34 actions), plus 3 endpoints x 3 tokens on one path and 2 endpoints x 3 paths; "
         "every transition runs the real operation in lock-step with refmodel::subject and checks observer identity/order/tokens, "
-        "one-observer-per-endpoint, frame conditions on all other paths and no entry creation by rounds. distinct non-trivial = "
-        "distinct canonical states (per path ordered observers with endpoint, token, count, pending id).",
+        "one-observer-per-endpoint, frame conditions on all other paths and no entry creation by rounds. Plus histories without "
+        "state merging (a setup, one action repeated 1..300 times, then every ordered pair of actions). The harness endpoint's "
+        "Display is a per-request tag, not its identity. distinct non-trivial = distinct canonical states (per path ordered "
+        "observers with endpoint, token, count, pending id).",
         ["oc"], ["oc", "rel"],
     ),
     "C15": P(
         "model_checking",
         "The same closed BFS with the accounting oracle (sequence +1 per round, count per CON round, eviction exactly when count > "
-        "limit, ack by endpoint+latest id only), plus 63 directed 600-round histories at limits {0,1,2,10,127,254,255} compared "
+        "limit, ack by endpoint+latest id only), the same unmerged repeat-then-probe histories, plus 63 directed 600-round histories at limits {0,1,2,10,127,254,255} compared "
         "with the model after every operation, plus the create_notification product (token 0-8 x sequence byte boundaries x type "
         "x mid x payload) against the reference codec. distinct non-trivial = distinct canonical states.",
         ["oc", "rel"], ["oc", "rel"],
@@ -230,7 +232,9 @@ PROPS = {
         "replies at budgets {21,32,64,1152}, dedup on the hook snapshot. Every exchange runs the real intercept_request / "
         "application / intercept_response / apply_from_error / encode path under panic capture; oracle: no panic, errors "
         "renderable as 4.xx/5.xx, own-buffer growth <= 16 KiB + payload, rejected blocks and other keys leave buffers unchanged. "
-        "states = distinct handler snapshots, transitions = exchanges.",
+        "Plus histories without state merging (one request repeated 1..40 times, then every ordered pair of requests) and jumps "
+        "after up to 33 in-order 1-2 KiB blocks each delivered 1..20 times. states = distinct handler snapshots, transitions = "
+        "exchanges.",
         ["oc", "rel"], ["oc", "rel"],
     ),
     "C12": P(
